@@ -16,7 +16,12 @@ def run_case(c):
     G = nx.MultiDiGraph()
     for n in range(1, nn + 1):
         G.add_node("n%d" % n)
+    # the direction in which a link is drawn is irrelevant to the partition: every other link (by case and position) is
+    # drawn the other way round, so that parallel links of opposite orientation occur
+    flip = sum(a * 7 + b for a, b in c["links"]) + len(c["valves"])
     for i, (a, b) in enumerate(c["links"]):
+        if (flip + i) % 2:
+            a, b = b, a
         G.add_edge("n%d" % a, "n%d" % b, key="l%d" % (i + 1))
     rows = [{"node": "n%d" % n, "link": "l%d" % l} for n, l in c["valves"]]
     if c["dup"] and rows:
